@@ -13,12 +13,14 @@ mod mon_c03;
 mod readers;
 mod textgen;
 mod mon_c04;
+mod mon_c06;
 mod mon_c07;
 mod mon_c08;
 mod mon_c09;
 mod reffilter;
 mod refzinc;
 mod mon_c10;
+mod mon_c11;
 mod mon_c12;
 mod mon_c13;
 mod mon_c14;
@@ -113,10 +115,12 @@ fn main() {
         "C02" => mon_c02::run(&mut ctx),
         "C03" => mon_c03::run(&mut ctx),
         "C04" => mon_c04::run(&mut ctx),
+        "C06" => mon_c06::run(&mut ctx),
         "C07" => mon_c07::run(&mut ctx),
         "C08" => mon_c08::run(&mut ctx),
         "C09" => mon_c09::run(&mut ctx),
         "C10" => mon_c10::run(&mut ctx),
+        "C11" => mon_c11::run(&mut ctx),
         "C12" => mon_c12::run(&mut ctx),
         "C13" => mon_c13::run(&mut ctx),
         "C14" => mon_c14::run(&mut ctx),
